@@ -153,7 +153,7 @@ func specialSpaces(depth int, thorough bool) []Space {
 //	                                       invoice created up front (keysend record / AMP record on such an HTLC)
 //	HtlcInterceptor                        answers CancelSet ("hx:") or AmountPaid ("ha:") for single HTLCs
 //	a second invoice in the store          Two: HTLCs that mix the hash of one invoice with the payment address of the other
-//	hold x zero-amount                     kind holdzero
+//	hold x zero-amount                     kind holdzero (thorough)
 func configSpaces(thorough bool) []Space {
 	d := 0
 	if thorough {
@@ -165,24 +165,26 @@ func configSpaces(thorough bool) []Space {
 		{Name: "kshold", Kind: "kshold", Pays: []string{"Kr", "Kw", "L"}, Amts: half, Exps: []string{"ok", "lo"},
 			Ctl: []string{"r:1", "r:2", "c", "s:r", "s:w", "t", "b", "R"}, Depth: 4 + d},
 		{Name: "kshold-gcf", Kind: "kshold-gcf", Pays: []string{"Kr"}, Amts: []int64{valueV}, Exps: ok,
-			Ctl: []string{"r:1", "r:2", "c", "s:r", "R"}, Depth: 5 + d},
+			Ctl: []string{"r:1", "r:2", "c", "s:r", "R"}, Depth: 4 + d},
 		{Name: "regular-restart", Kind: "regular-gcs", Pays: []string{"Mr0"}, Amts: half, Exps: ok,
 			Ctl: []string{"r:1", "r:2", "r:3", "c", "t", "R"}, Depth: 5 + d, Two: true},
-		{Name: "hold-restart", Kind: "hold-gcf", Pays: []string{"Mr0", "L"}, Amts: half, Exps: ok,
+		{Name: "hold-restart", Kind: "hold-gc", Pays: []string{"Mr0", "L"}, Amts: half, Exps: ok,
 			Ctl: []string{"r:1", "r:2", "c", "s:r", "t", "R"}, Depth: 5 + d, Two: true},
 		{Name: "amp-restart", Kind: "amp", Pays: []string{"A10r0g", "A11r0g"}, Amts: []int64{valueV / 2}, Exps: ok,
 			Extra: []string{"h:A2sr0g:1000:ok"}, Ctl: []string{"r:1", "r:2", "c", "t", "R"}, Depth: 5 + d, Two: true},
 		{Name: "regular-jit", Kind: "regular-jit", Pays: []string{"L", "Mr0"}, Amts: half, Exps: ok,
 			Extra: []string{"h:kw:1000:ok", "h:kz:1000:ok", "h:A2sr0g:1000:ok", "h:A2so0g:1000:ok", "h:Mo0:1000:ok"},
 			Ctl: []string{"r:1", "r:2", "c", "t"}, Depth: 3 + d, Two: true},
-		{Name: "hold-zero", Kind: "holdzero", Pays: []string{"L", "Mr-", "Mr0"}, Amts: []int64{valueV/2 - 1, valueV / 2}, Exps: []string{"ok", "lo"},
-			Ctl: []string{"r:1", "r:2", "c", "s:r", "t"}, Depth: 4 + d},
+		{Name: "ampjit-restart", Kind: "ampjit", Pays: []string{"A10r0g", "A11r0g"}, Amts: []int64{valueV / 2}, Exps: ok,
+			Extra: []string{"h:A2sr0g:1000:ok"}, Ctl: []string{"r:1", "r:2", "c", "t", "b", "R"}, Depth: 4 + d},
 		{Name: "regular-icpt", Kind: "regular", Pays: []string{"Mr0"}, Amts: half, Exps: ok,
 			Extra: []string{"hx:Mr0:500:ok", "ha:Mr0:500:ok", "ha:Mr+:500:ok", "hx:L:1000:ok"},
 			Ctl: []string{"r:1", "r:2", "c", "t"}, Depth: 4 + d},
 	}
 	if thorough {
 		sp = append(sp,
+			Space{Name: "hold-zero", Kind: "holdzero", Pays: []string{"L", "Mr-", "Mr0"}, Amts: []int64{valueV/2 - 1, valueV / 2}, Exps: []string{"ok", "lo"},
+				Ctl: []string{"r:1", "r:2", "c", "s:r", "t"}, Depth: 5},
 			Space{Name: "amp-gc", Kind: "amp-gcf", Pays: []string{"A10r0g", "A11r0g"}, Amts: []int64{valueV / 2}, Exps: ok,
 				Extra: []string{"h:A2sr0g:1000:ok"}, Ctl: []string{"r:1", "r:2", "c", "t", "R"}, Depth: 5, Two: true},
 			Space{Name: "hold-icpt", Kind: "hold", Pays: []string{"Mr0"}, Amts: half, Exps: ok,
@@ -326,6 +328,9 @@ func runSpace(run *evid.Run, sp Space, st *Stats, deadline time.Time, workers in
 			if err != nil {
 				return nil, err
 			}
+			// a fresh instance is in the initial state: the history that is re-established
+			// on it is the empty one until seqmc calls Replay
+			w.baseSet = true
 			return w, nil
 		},
 		Alphabet:   sp.Alphabet(),
